@@ -282,7 +282,7 @@ void h_ovni_proc_set_rank(void)
 /* relocation to the final directory: file-system calls only (content: C09/C10) */
 void cr11_move_thdir_to_final(const char *thdir, const char *thdir_final)
 __CPROVER_requires(1)
-__CPROVER_assigns(DIAG_FRAME)
+__CPROVER_assigns(DIAG_FRAME, verif_errno)
 __CPROVER_ensures(1);
 void h_move_thdir_to_final(void)
 {
@@ -314,7 +314,7 @@ void c11_ovni_thread_free(void)
 __CPROVER_requires(!rthread.ready || FREE_CPUS_PRE)
 __CPROVER_requires(!rthread.ready || rthread.evbuf == NULL || __CPROVER_is_fresh(rthread.evbuf, g_cap))
 __CPROVER_requires(w_rank_set == rthread.rank_set && w_mtf == rproc.move_to_final)
-__CPROVER_assigns(rthread.evbuf, rthread.streamfd, rthread.finished, rthread.ready, F_PARSON, F_STORE, F_DIAG)
+__CPROVER_assigns(verif_errno, rthread.evbuf, rthread.streamfd, rthread.finished, rthread.ready, F_PARSON, F_STORE, F_DIAG)
 __CPROVER_frees(rthread.evbuf)
 __CPROVER_ensures(GATE_THREAD && !OLD(rthread.finished))
 __CPROVER_ensures(rthread.finished == 1 && rthread.ready == 0 && rthread.evbuf == NULL && rthread.streamfd == -1);
